@@ -18,7 +18,7 @@
    zero (`part_count == 0`), 27 slice end out of range, 28
    `debug_assert_eq!(partition.len(), points.len())`, 29 `par_chunks(0)`,
    30 `assert!(order <= max_order)`. *)
-From Coupe Require Import Lib.Prelude Lib.SFloat Lib.Sorting.
+From Coupe Require Import Lib.Prelude Lib.SFloat Lib.Sorting Gen.SfcGen.
 From Coq Require Import Floats.SpecFloat.
 Open Scope nat_scope.
 
@@ -55,8 +55,18 @@ Definition fnegzero : spec_float := S754_zero true.        (* start value of `Su
 Definition f_of_nat (k : nat) : spec_float := f64_of_Z (Z.of_nat k).   (* `k as f64` *)
 Definition f64_epsilon : spec_float := f64_of_bits 4372995238176751616%N.  (* 2^-52 *)
 
-(* approx::abs_diff_eq!(a, b) for f64: |a - b| <= f64::EPSILON *)
-Definition abs_diff_eq (a b : spec_float) : bool := fle (fabs (f64_sub a b)) f64_epsilon.
+(* approx::abs_diff_eq!(a, b, epsilon = eps) for f64: |a - b| <= eps *)
+Definition abs_diff_eq (eps a b : spec_float) : bool := fle (fabs (f64_sub a b)) eps.
+
+(* the epsilon of the two `abs_diff_eq!` tests of weighted_quantiles.  [sc] is read
+   from the source by the translator (Gen/SfcGen.v: hilbert_eps_scaled):
+     false: `approx::abs_diff_eq!(pw.as_(), expected_left_weight)` (default epsilon f64::EPSILON;
+            does not terminate for tiny total weights, Proofs/WqNonTermination.v)
+     true:  `…, epsilon = f64::EPSILON * f64::min(1.0, total_weight.as_())`
+   (`f64::min` returns the other operand when one is NaN) *)
+Definition scan_eps (sc : bool) (total : spec_float) : spec_float :=
+  if sc then f64_mul f64_epsilon (if flt total (f64_of_Z 1) then total else f64_of_Z 1)
+  else f64_epsilon.
 
 (* min_by / max_by (partial_cmp) of a non-empty vector of u64 *)
 Definition min_list (l : list N) : option N :=
@@ -86,7 +96,7 @@ Fixpoint prefix_sums (acc : spec_float) (l : list spec_float) : list spec_float 
   end.
 
 (* `for q in p + 1..n - 1 { pw += part_weights[q]; ... }` *)
-Fixpoint scan_up (positions : list N) (pws : list spec_float) (expected : spec_float)
+Fixpoint scan_up (eps : spec_float) (positions : list N) (pws : list spec_float) (expected : spec_float)
          (qs : list nat) (pw : spec_float) (mn mx : N) : res (N * N) :=
   match qs with
   | [] => Ok (mn, mx)
@@ -95,7 +105,7 @@ Fixpoint scan_up (positions : list N) (pws : list spec_float) (expected : spec_f
     | None => Panic 23
     | Some w =>
       let pw' := f64_add pw w in
-      if abs_diff_eq pw' expected then
+      if abs_diff_eq eps pw' expected then
         match nth_opt positions q with Some sq => Ok (sq, sq) | None => Panic 23 end
       else if flt expected pw' then
         match nth_opt positions q with
@@ -104,15 +114,15 @@ Fixpoint scan_up (positions : list N) (pws : list spec_float) (expected : spec_f
         end
       else if flt pw' expected then
         match nth_opt positions q with
-        | Some sq => scan_up positions pws expected qt pw' sq mx
+        | Some sq => scan_up eps positions pws expected qt pw' sq mx
         | None => Panic 23
         end
-      else scan_up positions pws expected qt pw' mn mx
+      else scan_up eps positions pws expected qt pw' mn mx
     end
   end.
 
 (* `for q in (0..p).rev() { pw -= part_weights[q + 1]; ... }` *)
-Fixpoint scan_down (positions : list N) (pws : list spec_float) (expected : spec_float)
+Fixpoint scan_down (eps : spec_float) (positions : list N) (pws : list spec_float) (expected : spec_float)
          (qs : list nat) (pw : spec_float) (mn mx : N) : res (N * N) :=
   match qs with
   | [] => Ok (mn, mx)
@@ -121,7 +131,7 @@ Fixpoint scan_down (positions : list N) (pws : list spec_float) (expected : spec
     | None => Panic 23
     | Some w =>
       let pw' := f64_sub pw w in
-      if abs_diff_eq pw' expected then
+      if abs_diff_eq eps pw' expected then
         match nth_opt positions q with Some sq => Ok (sq, sq) | None => Panic 23 end
       else if flt pw' expected then
         match nth_opt positions q with
@@ -130,12 +140,104 @@ Fixpoint scan_down (positions : list N) (pws : list spec_float) (expected : spec
         end
       else if flt expected pw' then
         match nth_opt positions q with
-        | Some sq => scan_down positions pws expected qt pw' mn sq
+        | Some sq => scan_down eps positions pws expected qt pw' mn sq
         | None => Panic 23
         end
-      else scan_down positions pws expected qt pw' mn mx
+      else scan_down eps positions pws expected qt pw' mn mx
     end
   end.
+
+(* ---- the quantile search, parametric in the epsilon flag [sc] (used for the
+   refutation of the old comparison, Proofs/WqNonTermination.v) ---- *)
+
+(* the body of the `.map(|(p, (mut split, left_weight))| ...)` closure;
+   the boolean says whether the split was settled by this call
+   (`todo_split_count -= 1`).  [tol] = SPLIT_TOLERANCE, [positions] = the
+   positions of the splits BEFORE this round (the closure reads `splits[q]`
+   of the old vector). *)
+Definition update_split_g (sc : bool) (tol : spec_float) (n : nat) (positions : list N) (pws : list spec_float)
+           (total : spec_float) (p : nat) (s : split) (left : spec_float) : res (split * bool) :=
+  if s_settled s then Ok (s, false)
+  else
+    let lr := f64_div left (f_of_nat (p + 1)) in
+    let rr := f64_div (f64_sub total left) (f_of_nat (n - p - 1)) in
+    if flt (f64_div (fabs (f64_sub lr rr)) total) tol then
+      Ok (mkSplit (s_pos s) (s_min s) (s_max s) true, true)
+    else
+      let expected := f64_div (f64_mul (f_of_nat (p + 1)) total) (f_of_nat n) in
+      bind (if flt lr rr
+            then scan_up (scan_eps sc total) positions pws expected (seq (p + 1) (n - 1 - (p + 1))) left (s_pos s) (s_max s)
+            else scan_down (scan_eps sc total) positions pws expected (rev (seq 0 p)) left (s_min s) (s_pos s))
+           (fun '(mn, mx) =>
+              let np := avg_u64 mn mx in
+              if (s_pos s =? np)%N then Ok (mkSplit (s_pos s) mn mx true, true)
+              else Ok (mkSplit np mn mx false, false)).
+
+(* `splits.iter().cloned().zip(prefix_left_weights).enumerate().map(..).collect()` *)
+Fixpoint update_splits_g (sc : bool) (tol : spec_float) (n : nat) (positions : list N) (pws : list spec_float)
+         (total : spec_float) (p : nat) (ss : list split) (lefts : list spec_float)
+  : res (list split * nat) :=
+  match ss, lefts with
+  | s :: st, l :: lt =>
+    bind (update_split_g sc tol n positions pws total p s l) (fun '(s', b) =>
+    bind (update_splits_g sc tol n positions pws total (S p) st lt) (fun '(r, c) =>
+      Ok (s' :: r, if b then S c else c)))
+  | _, _ => Ok ([], O)
+  end.
+
+(* one round of the `while todo_split_count > 0` loop *)
+Definition wq_round_g (sc : bool) (tol : spec_float) (n : nat) (pts : list N) (ws : list spec_float) (ss : list split)
+  : res (list split * nat) :=
+  let positions := map s_pos ss in
+  bind (part_weights_of positions pts ws (repeat fzero n)) (fun pws =>
+    let total := fold_left f64_add pws fnegzero in
+    update_splits_g sc tol n positions pws total 0 ss (prefix_sums fzero pws)).
+
+Fixpoint wq_loop_g (sc : bool) (tol : spec_float) (fuel n : nat) (pts : list N) (ws : list spec_float)
+         (ss : list split) (todo : nat) : res (list split) :=
+  match todo with
+  | O => Ok ss
+  | _ =>
+    match fuel with
+    | O => OutOfFuel
+    | S f =>
+      bind (wq_round_g sc tol n pts ws ss) (fun '(ss', settled_now) =>
+        wq_loop_g sc tol f n pts ws ss' (todo - settled_now))
+    end
+  end.
+
+Definition init_splits (mn mx : N) (n : nat) : list split :=
+  map (fun i => mkSplit (mn + (mx - mn) / N.of_nat n * N.of_nat i)%N mn mx false) (seq 1 (n - 1)).
+
+Definition weighted_quantiles_g (sc : bool) (tol : spec_float) (fuel : nat) (pts : list N) (ws : list spec_float) (n : nat)
+  : res (list N) :=
+  match n with
+  | O => Panic 22
+  | _ =>
+    match min_list pts, max_list pts with
+    | Some mn, Some mx =>
+      let ss := init_splits mn mx n in
+      bind (wq_loop_g sc tol fuel n pts ws ss (length ss)) (fun ss' => Ok (map s_pos ss'))
+    | _, _ => Panic 21
+    end
+  end.
+
+(* HilbertCurve::partition after the index computation: [idx] = the recorded
+   `hilbert_indices` (one per point). *)
+Definition hilbert_partition_g (sc : bool) (tol : spec_float) (max_order order : N) (fuel : nat)
+           (idx : list N) (ws : list spec_float) (k : nat) (p0 : list N) : res (list N) :=
+  if (max_order <? order)%N then Err (InvalidOrder max_order order)
+  else
+    match p0 with
+    | [] => Ok []
+    | _ =>
+      bind (weighted_quantiles_g sc tol fuel idx ws k) (fun splits =>
+      bind (assign_parts splits idx) (fun ids => Ok (write_zip p0 ids)))
+    end.
+
+(* ---- the quantile search of the CURRENT source: the same definitions at the flag the
+   translator reads (Gen/SfcGen.v: hilbert_eps_scaled); `…  = …_g hilbert_eps_scaled`
+   holds by computation (SfcProofs) ---- *)
 
 (* the body of the `.map(|(p, (mut split, left_weight))| ...)` closure;
    the boolean says whether the split was settled by this call
@@ -153,8 +255,8 @@ Definition update_split (tol : spec_float) (n : nat) (positions : list N) (pws :
     else
       let expected := f64_div (f64_mul (f_of_nat (p + 1)) total) (f_of_nat n) in
       bind (if flt lr rr
-            then scan_up positions pws expected (seq (p + 1) (n - 1 - (p + 1))) left (s_pos s) (s_max s)
-            else scan_down positions pws expected (rev (seq 0 p)) left (s_min s) (s_pos s))
+            then scan_up (scan_eps hilbert_eps_scaled total) positions pws expected (seq (p + 1) (n - 1 - (p + 1))) left (s_pos s) (s_max s)
+            else scan_down (scan_eps hilbert_eps_scaled total) positions pws expected (rev (seq 0 p)) left (s_min s) (s_pos s))
            (fun '(mn, mx) =>
               let np := avg_u64 mn mx in
               if (s_pos s =? np)%N then Ok (mkSplit (s_pos s) mn mx true, true)
@@ -193,8 +295,6 @@ Fixpoint wq_loop (tol : spec_float) (fuel n : nat) (pts : list N) (ws : list spe
     end
   end.
 
-Definition init_splits (mn mx : N) (n : nat) : list split :=
-  map (fun i => mkSplit (mn + (mx - mn) / N.of_nat n * N.of_nat i)%N mn mx false) (seq 1 (n - 1)).
 
 Definition weighted_quantiles (tol : spec_float) (fuel : nat) (pts : list N) (ws : list spec_float) (n : nat)
   : res (list N) :=
